@@ -4416,6 +4416,9 @@ func (t *Terminal) Loop() error {
 		}()
 	}
 
+	// Signalled by the previewer each time a preview command has been cleaned up
+	previewing := util.NewAtomicBool(false)
+	previewCleaned := make(chan struct{}, 1)
 	if t.hasPreviewer() {
 		go func() {
 			var version int64
@@ -4464,6 +4467,7 @@ func (t *Terminal) Loop() error {
 					finishChan := make(chan bool, 1)
 					err := cmd.Start()
 					if err == nil {
+						previewing.Set(true)
 						reapChan := make(chan bool)
 						lineChan := make(chan eachLine)
 						// Goroutine 1 reads process output
@@ -4544,6 +4548,8 @@ func (t *Terminal) Loop() error {
 									select {
 									case <-timer.C:
 										util.KillCommand(cmd)
+									case <-ctx.Done():
+										util.KillCommand(cmd)
 									case <-finishChan:
 									}
 									timer.Stop()
@@ -4553,6 +4559,8 @@ func (t *Terminal) Loop() error {
 							for {
 								select {
 								case <-ctx.Done():
+									// The session is over; do not leave the command behind
+									util.KillCommand(cmd)
 									break Loop
 								case <-timer.C:
 									t.reqBox.Set(reqPreviewDelayed, version)
@@ -4583,6 +4591,11 @@ func (t *Terminal) Loop() error {
 						<-reapChan         // Goroutine 2 and 3 finished
 						<-reapChan
 						removeFiles(tempFiles)
+						previewing.Set(false)
+						select {
+						case previewCleaned <- struct{}{}:
+						default:
+						}
 					} else {
 						// Failed to start the command. Report the error immediately.
 						t.reqBox.Set(reqPreviewDisplay, previewResult{version, []string{err.Error()}, 0, ""})
@@ -4779,10 +4792,20 @@ func (t *Terminal) Loop() error {
 			})
 		}
 
-		t.eventBox.Set(EvtQuit, quitSignal{code, nil})
 		t.running.Set(false)
 		t.killPreview()
 		cancel()
+		// Give the previewer a chance to kill the running command and to remove
+		// its temporary files before the process exits
+		deadline := time.After(previewCancelWait)
+		for previewing.Get() {
+			select {
+			case <-previewCleaned:
+			case <-deadline:
+				previewing.Set(false)
+			}
+		}
+		t.eventBox.Set(EvtQuit, quitSignal{code, nil})
 	}()
 
 	looping := true
